@@ -650,7 +650,7 @@ func (f *Frame) execIndexAddr(in *ssa.IndexAddr, st *State) {
 	case *types.Slice:
 		x := f.get(in.X)
 		f.check(st, "bounds", in.Pos(), "index in range", And(Ge(idx, IntLit(0)), Lt(idx, x[2])))
-		sh := &PtrShape{Kind: pElem, Ref: x[0], Idx: c.define("ix", Add(x[1], idx)), Root: xt.Elem(), Off: 0, Typ: xt.Elem()}
+		sh := &PtrShape{Kind: pElem, Ref: x[0], Idx: idx, View: x[1], Root: xt.Elem(), Off: 0, Typ: xt.Elem()}
 		f.set(in, []Term{c.newShapePtr(sh, in.Name())})
 	case *types.Pointer:
 		arr := xt.Elem().Underlying().(*types.Array)
@@ -658,7 +658,7 @@ func (f *Frame) execIndexAddr(in *ssa.IndexAddr, st *State) {
 		f.check(st, "bounds", in.Pos(), "array index in range", And(Ge(idx, IntLit(0)), Lt(idx, IntLit(arr.Len()))))
 		switch base.Kind {
 		case pElem:
-			sh := &PtrShape{Kind: pElem, Ref: base.Ref, Idx: c.define("ix", Add(base.Idx, idx)), Root: base.Root, Off: 0, Typ: arr.Elem()}
+			sh := &PtrShape{Kind: pElem, Ref: base.Ref, Idx: c.define("ix", Add(base.Idx, idx)), View: base.View, Root: base.Root, Off: 0, Typ: arr.Elem()}
 			f.set(in, []Term{c.newShapePtr(sh, in.Name())})
 		default:
 			// array stored flat inside an object / local cell: constant index only
@@ -754,7 +754,11 @@ func (f *Frame) execSlice(in *ssa.Slice, st *State) {
 			mx = f.get(in.Max)[0]
 		}
 		f.check(st, "bounds", in.Pos(), "slice bounds", And(Le(IntLit(0), lo), Le(lo, hi), Le(hi, mx), Le(mx, n)))
-		f.set(in, []Term{base.Ref, c.define("so", Add(base.Idx, lo)), c.define("sl", Sub(hi, lo)), c.define("sc", Sub(mx, lo))})
+		bo := base.Idx
+		if base.View.S != "" && base.View.S != "0" {
+			bo = Add(base.View, base.Idx)
+		}
+		f.set(in, []Term{base.Ref, c.define("so", Add(bo, lo)), c.define("sl", Sub(hi, lo)), c.define("sc", Sub(mx, lo))})
 	default:
 		c.unsupported(f, "Slice of "+in.X.Type().String())
 	}
